@@ -141,11 +141,34 @@ template<typename T, size_t N> std::vector<std::string> readMA(const nix::DataSe
     for (size_t i = 0; i < ma.num_elements(); i++) out.push_back(Conv<T>::to((T) ma.data()[i]));
     return out;
 }
+// rank 1 also through std::vector<T> (not for bool: std::vector<bool> is packed and has no data traits)
+template<typename T> struct Vec {
+    static void write(nix::DataSet *t, const std::vector<std::string> &vals) {
+        std::vector<T> v;
+        for (auto &x : vals) v.push_back(Conv<T>::from(x));
+        if (dynamic_cast<nix::DataView *>(t)) t->setData(v, nix::NDSize(1, 0)); else t->setData(v);
+    }
+    static std::vector<std::string> read(const nix::DataSet *s) {
+        std::vector<T> v;
+        s->getData(v);
+        std::vector<std::string> out;
+        for (auto &x : v) out.push_back(Conv<T>::to(x));
+        return out;
+    }
+    static const bool usable = true;
+};
+template<> struct Vec<bool> {
+    static void write(nix::DataSet *, const std::vector<std::string> &) {}
+    static std::vector<std::string> read(const nix::DataSet *) { return {}; }
+    static const bool usable = false;
+};
 template<typename T> struct MA {
     static void write(nix::DataSet *t, const nix::NDSize &shape, const std::vector<std::string> &vals) {
+        if (shape.size() == 1 && Vec<T>::usable && (wholeTransfers % 4 == 1)) { Vec<T>::write(t, vals); return; }
         if (shape.size() == 1) writeMA<T, 1>(t, shape, vals); else if (shape.size() == 2) writeMA<T, 2>(t, shape, vals); else writeMA<T, 3>(t, shape, vals);
     }
     static std::vector<std::string> read(const nix::DataSet *s, size_t rank) {
+        if (rank == 1 && Vec<T>::usable && (wholeTransfers % 4 == 1)) return Vec<T>::read(s);
         return rank == 1 ? readMA<T, 1>(s) : rank == 2 ? readMA<T, 2>(s) : readMA<T, 3>(s);
     }
     static const bool usable = true;
